@@ -279,6 +279,328 @@ theorem callback_one_pending (w : World) (m : Nat) (e : Int) (funds : Bool) (he 
     · rw [alookup_aset_other _ _ _ _ hmm] at hs'
       exact hothers m' s' hmm hs' hc'
 
+/-- one successful callback, seen from every miner: only `m` is touched, the claims are unchanged,
+    and `m` ends with exactly one queued proving-deadline event iff its cron stays active -/
+theorem callback_step (w : World) (m : Nat) (e : Int) (funds : Bool) (he : 0 ≤ e) (s : Sched)
+    (hs : alookup m w.miners = some s) (hact : s.cronActive = true)
+    (hcnt : countDeadlineEvents w.power m = 0) :
+    (callback w m e funds false).power.claims = w.power.claims ∧
+    (∀ m', m' ≠ m → alookup m' (callback w m e funds false).miners = alookup m' w.miners ∧
+        countDeadlineEvents (callback w m e funds false).power m' = countDeadlineEvents w.power m') ∧
+    (∃ s', alookup m (callback w m e funds false).miners = some s' ∧
+        countDeadlineEvents (callback w m e funds false).power m = (if s'.cronActive then 1 else 0)) := by
+  unfold callback
+  simp only [Bool.false_eq_true, if_false, hs]
+  cases funds with
+  | true =>
+    simp only [if_true]
+    have hge := lastOf_ge (advance s e).pps (e + 1)
+    unfold enroll
+    have hnn : ¬ (lastOf (advance s e).pps (e + 1) < 0) := by omega
+    simp only [hnn, if_false]
+    have hadv : (advance s e).cronActive = true := by
+      unfold advance
+      simp only
+      by_cases hlt : e < periodStartOf s.pps e
+      · rw [if_pos hlt]; exact hact
+      · rw [if_neg hlt]; exact hact
+    refine ⟨trivial, ?_, ?_⟩
+    · intro m' hmm
+      refine ⟨alookup_aset_other _ _ _ _ hmm, ?_⟩
+      have := count_append w.power (lastOf (advance s e).pps (e + 1), m, 1) m'
+      unfold countDeadlineEvents at this ⊢
+      simp only at this ⊢
+      rw [this]
+      simp [Ne.symm hmm]
+    · refine ⟨advance s e, alookup_aset_same _ _ _, ?_⟩
+      have := count_append w.power (lastOf (advance s e).pps (e + 1), m, 1) m
+      unfold countDeadlineEvents at this hcnt ⊢
+      simp only at this ⊢
+      rw [this, hcnt, hadv]; simp
+  | false =>
+    simp only [Bool.false_eq_true, if_false]
+    refine ⟨trivial, ?_, ?_⟩
+    · intro m' hmm
+      exact ⟨alookup_aset_other _ _ _ _ hmm, trivial⟩
+    · refine ⟨{ advance s e with cronActive := false }, alookup_aset_same _ _ _, ?_⟩
+      simp only [Bool.false_eq_true, if_false]
+      exact hcnt
+
+/-- the invariant of the power actor's dispatch loop: the miners whose due event has been taken off
+    the queue and whose callback has not run yet (`pending`) are active with nothing queued; every
+    other claim-holding miner has exactly one queued event iff its cron is active -/
+def TickInv (w : World) (pending : List Nat) : Prop :=
+  pending.Nodup ∧
+  (∀ m ∈ pending, (∃ s, alookup m w.miners = some s ∧ s.cronActive = true) ∧
+      countDeadlineEvents w.power m = 0) ∧
+  (∀ m s, m ∉ pending → alookup m w.miners = some s → m ∈ w.power.claims →
+      countDeadlineEvents w.power m = (if s.cronActive then 1 else 0))
+
+/-- the dispatch loop of `process_deferred_cron_events` over the miners with a due event
+    (successful callbacks; `env m` = whether `m` still has sectors, deposits or vesting funds) -/
+def dispatch (w : World) (e : Int) (env : Nat → Bool) : List Nat → World
+  | [] => w
+  | m :: ms => dispatch (callback w m e (env m) false) e env ms
+
+/-- **The tick re-establishes "exactly one pending callback" for everybody**: after the power
+    actor has dequeued the due proving-deadline events (state `TickInv w ms`) and run the callbacks
+    of those miners in any order, every claim-holding miner has exactly one queued proving-deadline
+    event if its cron is active and none otherwise. -/
+theorem dispatch_one_pending (e : Int) (he : 0 ≤ e) (env : Nat → Bool) :
+    ∀ (ms : List Nat) (w : World), TickInv w ms → OnePending (dispatch w e env ms) := by
+  intro ms
+  induction ms with
+  | nil =>
+    intro w h m s hs hc
+    exact h.2.2 m s (by simp) hs hc
+  | cons m ms ih =>
+    intro w h
+    obtain ⟨hnd, hpend, hrest⟩ := h
+    rw [List.nodup_cons] at hnd
+    obtain ⟨⟨s, hs, hact⟩, hcnt⟩ := hpend m (by simp)
+    obtain ⟨hcl, hframe, s', hs', hcnt'⟩ := callback_step w m e (env m) he s hs hact hcnt
+    apply ih
+    refine ⟨hnd.2, ?_, ?_⟩
+    · intro m' hm'
+      have hne : m' ≠ m := fun h => hnd.1 (h ▸ hm')
+      obtain ⟨f1, f2⟩ := hframe m' hne
+      obtain ⟨⟨t, ht, hta⟩, hc0⟩ := hpend m' (List.mem_cons_of_mem _ hm')
+      exact ⟨⟨t, by rw [f1]; exact ht, hta⟩, by rw [f2]; exact hc0⟩
+    · intro m' t hnot ht hc
+      by_cases hne : m' = m
+      · subst hne
+        rw [hs'] at ht; cases ht
+        exact hcnt'
+      · obtain ⟨f1, f2⟩ := hframe m' hne
+        rw [f1] at ht
+        rw [f2]
+        apply hrest m' t _ ht (by rw [← hcl]; exact hc)
+        intro hmem
+        cases hmem with
+        | head => exact hne rfl
+        | tail _ h' => exact hnot h'
+
+/-- "due": the event's epoch lies in the window `[firstCronEpoch, e]` -/
+def dueP (w : World) (e : Int) : Event → Bool :=
+  fun ev => decide (w.power.firstCronEpoch ≤ ev.1 ∧ ev.1 ≤ e)
+/-- the complement, in the form `powerTick` uses -/
+def notDueP (w : World) (e : Int) : Event → Bool :=
+  fun ev => decide (¬ (decide (w.power.firstCronEpoch ≤ ev.1 ∧ ev.1 ≤ e) = true))
+/-- the event is a proving-deadline event of a claim holder -/
+def liveP (w : World) : Event → Bool := fun ev => decide (ev.2.1 ∈ w.power.claims ∧ ev.2.2 = 1)
+/-- the event is a proving-deadline event of miner `m` -/
+def ofP (m : Nat) : Event → Bool := fun ev => decide (ev.2.1 = m ∧ ev.2.2 = 1)
+
+theorem count_eq (p : Power) (m : Nat) : countDeadlineEvents p m = (p.queue.filter (ofP m)).length := rfl
+
+/-- the miners whose proving-deadline event is due in the window `[firstCronEpoch, e]` and who hold a claim -/
+def dueMiners (w : World) (e : Int) : List Nat :=
+  (((w.power.queue.filter (dueP w e)).filter (liveP w)).map (·.2.1))
+
+/-- the world right after the due events were taken off the queue -/
+def afterDequeue (w : World) (e : Int) : World :=
+  { w with power := { w.power with queue := w.power.queue.filter (notDueP w e), firstCronEpoch := e + 1 } }
+
+theorem foldl_dispatch (claims : List Nat) (e : Int) (env : Nat → Bool × Bool)
+    (hok : ∀ m, (env m).2 = false) :
+    ∀ (due : List Event) (acc : World),
+    due.foldl (fun acc ev =>
+      if ev.2.1 ∈ claims ∧ ev.2.2 = 1 then callback acc ev.2.1 e (env ev.2.1).1 (env ev.2.1).2 else acc) acc
+    = dispatch acc e (fun m => (env m).1)
+        ((due.filter (fun ev => decide (ev.2.1 ∈ claims ∧ ev.2.2 = 1))).map (·.2.1)) := by
+  intro due
+  induction due with
+  | nil => intro acc; rfl
+  | cons ev rest ih =>
+    intro acc
+    simp only [List.foldl_cons]
+    by_cases hc : ev.2.1 ∈ claims ∧ ev.2.2 = 1
+    · simp only [hc, and_self, if_true, List.filter_cons, decide_true, List.map_cons, dispatch]
+      rw [hok ev.2.1]
+      exact ih _
+    · simp only [hc, if_false, List.filter_cons, decide_false]
+      exact ih _
+
+/-- **`process_deferred_cron_events` is the dequeue followed by the dispatch loop** (when no
+    callback fails). -/
+theorem powerTick_eq_dispatch (w : World) (e : Int) (env : Nat → Bool × Bool)
+    (hok : ∀ m, (env m).2 = false) :
+    powerTick w e env = dispatch (afterDequeue w e) e (fun m => (env m).1) (dueMiners w e) := by
+  unfold powerTick dueMiners afterDequeue
+  exact foldl_dispatch w.power.claims e env hok _ _
+
+theorem filter_partition_len {α : Type} (l : List α) (p q t : α → Bool) (hq : ∀ x, q x = !p x) :
+    (l.filter t).length = ((l.filter p).filter t).length + ((l.filter q).filter t).length := by
+  induction l with
+  | nil => rfl
+  | cons a r ih =>
+    simp only [List.filter_cons]
+    by_cases hp : p a = true
+    · have hqa : q a = false := by rw [hq, hp]; rfl
+      by_cases ht : t a = true <;> simp [hp, hqa, ht, ih] <;> omega
+    · have hp' : p a = false := by simpa using hp
+      have hqa : q a = true := by rw [hq, hp']; rfl
+      by_cases ht : t a = true <;> simp [hp', hqa, ht, ih] <;> omega
+
+theorem filter_len_mono {α : Type} (l : List α) (p q : α → Bool) (h : ∀ a, p a = true → q a = true) :
+    (l.filter p).length ≤ (l.filter q).length := by
+  induction l with
+  | nil => simp
+  | cons a r ih =>
+    simp only [List.filter_cons]
+    by_cases hp : p a = true
+    · simp [hp, h a hp]; exact ih
+    · have hp' : p a = false := by simpa using hp
+      by_cases hq : q a = true
+      · simp [hp', hq]; omega
+      · have hq' : q a = false := by simpa using hq
+        simp [hp', hq']; exact ih
+
+theorem nodup_map_of_count_le_one {α : Type} (f : α → Nat) :
+    ∀ (l : List α), (∀ x, (l.filter (fun a => decide (f a = x))).length ≤ 1) → (l.map f).Nodup := by
+  intro l
+  induction l with
+  | nil => intro _; simp
+  | cons a r ih =>
+    intro h
+    rw [List.map_cons, List.nodup_cons]
+    constructor
+    · intro hmem
+      rw [List.mem_map] at hmem
+      obtain ⟨b, hb, hfb⟩ := hmem
+      have h0 := h (f a)
+      have h1 : (List.filter (fun x => decide (f x = f a)) (a :: r)).length =
+          (List.filter (fun x => decide (f x = f a)) r).length + 1 := by
+        simp [List.filter_cons]
+      have hpos : 0 < (r.filter (fun x => decide (f x = f a))).length := by
+        apply List.length_pos_of_mem (a := b)
+        rw [List.mem_filter]; exact ⟨hb, by simp [hfb]⟩
+      omega
+    · apply ih
+      intro x
+      have h0 := h x
+      by_cases hx : f a = x
+      · have h1 : (List.filter (fun y => decide (f y = x)) (a :: r)).length =
+            (List.filter (fun y => decide (f y = x)) r).length + 1 := by
+          simp [List.filter_cons, hx]
+        omega
+      · have h1 : (List.filter (fun y => decide (f y = x)) (a :: r)).length =
+            (List.filter (fun y => decide (f y = x)) r).length := by
+          simp [List.filter_cons, hx]
+        omega
+
+/-- well-formedness of the schedule world the tick theorem needs: every queued proving-deadline
+    event belongs to a miner that has a schedule record -/
+def EventsHaveMiners (w : World) : Prop :=
+  ∀ ev ∈ w.power.queue, ev.2.2 = 1 → ∃ s, alookup ev.2.1 w.miners = some s
+
+/-- after the due events were dequeued the loop invariant holds -/
+theorem tickInv_after_dequeue (w : World) (e : Int) (h : OnePending w) (hm : EventsHaveMiners w) :
+    TickInv (afterDequeue w e) (dueMiners w e) := by
+  have hQ : ∀ x, notDueP w e x = !dueP w e x := by
+    intro x
+    unfold notDueP dueP
+    by_cases hx : (w.power.firstCronEpoch ≤ x.1 ∧ x.1 ≤ e) <;> simp [hx]
+  have part : ∀ m, countDeadlineEvents w.power m =
+      ((w.power.queue.filter (dueP w e)).filter (ofP m)).length +
+      countDeadlineEvents (afterDequeue w e).power m := by
+    intro m
+    rw [count_eq, count_eq]
+    exact filter_partition_len w.power.queue (dueP w e) (notDueP w e) (ofP m) hQ
+  have mem_due : ∀ m, m ∈ dueMiners w e ↔
+      m ∈ w.power.claims ∧ 0 < ((w.power.queue.filter (dueP w e)).filter (ofP m)).length := by
+    intro m
+    unfold dueMiners
+    simp only [List.mem_map, List.mem_filter]
+    constructor
+    · rintro ⟨ev, ⟨⟨hq, hp⟩, hl⟩, rfl⟩
+      have hl' : ev.2.1 ∈ w.power.claims ∧ ev.2.2 = 1 := by simpa [liveP] using hl
+      refine ⟨hl'.1, ?_⟩
+      apply List.length_pos_of_mem (a := ev)
+      simp only [List.mem_filter]
+      exact ⟨⟨hq, hp⟩, by simp [ofP, hl'.2]⟩
+    · rintro ⟨hc, hpos⟩
+      obtain ⟨ev, hev⟩ := List.exists_mem_of_length_pos hpos
+      simp only [List.mem_filter] at hev
+      obtain ⟨⟨hq, hp⟩, ho⟩ := hev
+      have ho' : ev.2.1 = m ∧ ev.2.2 = 1 := by simpa [ofP] using ho
+      exact ⟨ev, ⟨⟨hq, hp⟩, by simp [liveP, ho'.1, ho'.2, hc]⟩, ho'.1⟩
+  have one : ∀ m, m ∈ w.power.claims → 0 < countDeadlineEvents w.power m →
+      (∃ s, alookup m w.miners = some s ∧ s.cronActive = true) ∧ countDeadlineEvents w.power m = 1 := by
+    intro m hc hpos
+    have hpos' := hpos
+    rw [count_eq] at hpos'
+    obtain ⟨ev, hev⟩ := List.exists_mem_of_length_pos hpos'
+    simp only [List.mem_filter] at hev
+    obtain ⟨hq, ho⟩ := hev
+    have ho' : ev.2.1 = m ∧ ev.2.2 = 1 := by simpa [ofP] using ho
+    obtain ⟨s, hs⟩ := hm ev hq ho'.2
+    rw [ho'.1] at hs
+    have hh := h m s hs hc
+    by_cases ha : s.cronActive = true
+    · simp only [ha, if_true] at hh
+      exact ⟨⟨s, hs, ha⟩, hh⟩
+    · have hf : s.cronActive = false := by simpa using ha
+      rw [hf] at hh
+      simp only [Bool.false_eq_true, if_false] at hh
+      omega
+  have le1 : ∀ x, (((w.power.queue.filter (dueP w e)).filter (liveP w)).filter
+      (fun a => decide (a.2.1 = x))).length ≤ 1 := by
+    intro x
+    by_cases hx : x ∈ w.power.claims
+    · have hp := part x
+      have hle : (((w.power.queue.filter (dueP w e)).filter (liveP w)).filter
+          (fun a => decide (a.2.1 = x))).length ≤
+          ((w.power.queue.filter (dueP w e)).filter (ofP x)).length := by
+        rw [List.filter_filter]
+        apply filter_len_mono
+        intro a ha
+        simp only [Bool.and_eq_true, decide_eq_true_eq, liveP] at ha
+        simp [ofP, ha.1, ha.2.2]
+      by_cases hpos : 0 < countDeadlineEvents w.power x
+      · obtain ⟨_, h1⟩ := one x hx hpos
+        omega
+      · omega
+    · have hnil : (((w.power.queue.filter (dueP w e)).filter (liveP w)).filter
+          (fun a => decide (a.2.1 = x))) = [] := by
+        rw [List.filter_eq_nil_iff]
+        intro a ha
+        simp only [List.mem_filter] at ha
+        have hl : a.2.1 ∈ w.power.claims ∧ a.2.2 = 1 := by simpa [liveP] using ha.2
+        simp only [decide_eq_true_eq]
+        intro hax
+        exact hx (hax ▸ hl.1)
+      rw [hnil]; simp
+  refine ⟨?_, ?_, ?_⟩
+  · unfold dueMiners
+    exact nodup_map_of_count_le_one (fun ev : Event => ev.2.1) _ le1
+  · intro m hmd
+    obtain ⟨hc, hpos⟩ := (mem_due m).mp hmd
+    have hp := part m
+    have hpos' : 0 < countDeadlineEvents w.power m := by omega
+    obtain ⟨⟨s, hs, ha⟩, h1⟩ := one m hc hpos'
+    exact ⟨⟨s, hs, ha⟩, by omega⟩
+  · intro m s hnot hs hc
+    have hp := part m
+    have hz : ((w.power.queue.filter (dueP w e)).filter (ofP m)).length = 0 := by
+      by_cases hpos : 0 < ((w.power.queue.filter (dueP w e)).filter (ofP m)).length
+      · exact absurd ((mem_due m).mpr ⟨hc, hpos⟩) hnot
+      · omega
+    have hh := h m s hs hc
+    show countDeadlineEvents (afterDequeue w e).power m = _
+    omega
+
+/-- **Every tick keeps "exactly one pending proving-deadline callback"** — if before the tick every
+    claim-holding miner has exactly one queued proving-deadline event when its cron is active and none
+    otherwise, then so it is after `process_deferred_cron_events` at any epoch `e ≥ 0`, whichever
+    miners' events were due, in whatever order, and whether or not each of them still has sectors,
+    deposits or vesting funds (no callback failing). -/
+theorem tick_one_pending (w : World) (e : Int) (he : 0 ≤ e) (env : Nat → Bool × Bool)
+    (hok : ∀ m, (env m).2 = false) (h : OnePending w) (hm : EventsHaveMiners w) :
+    OnePending (powerTick w e env) := by
+  rw [powerTick_eq_dispatch w e env hok]
+  exact dispatch_one_pending e he _ _ _ (tickInv_after_dequeue w e h hm)
+
 def OnePendingDec (w : World) : Bool :=
   w.miners.all (fun p => decide (countDeadlineEvents w.power p.1 = (if p.2.cronActive then 1 else 0)))
 
